@@ -7,3 +7,16 @@ contract('Typename.__repr__', returns='str', requires=['wf_tn(self)'], result_is
 contract('Typename.instantiated_name', returns='str', requires=['wf_tn_plain(self)'], result_is='tn_iname(self)',
          loops={0: {'inv': ['res == self.name + tn_iname_fold(self.instantiations, _i)']}})
 contract('Typename.qualified_name', returns='str', requires=['isinstance(self.name, str)'], result_is='tn_qualified(self)')
+
+contract('Type.to_cpp', returns='str', requires=['wf_ty(self)'], result_is='ty_cpp(self)')
+contract('TemplatedType.to_cpp', returns='str', requires=['wf_ty(self)'], result_is='ty_cpp(self)')
+contract('collect_namespaces',
+         params={'obj': 'ref:Namespace|ref:Class|ref:Enum|ref:ForwardDeclaration|ref:GlobalFunction|ref:Variable'},
+         returns='list[str]', fresh=True,
+         result_is="[''] + ns_chain(obj.parent)", assumed=True,
+         note='assumed (checked by the bounded tier on real trees): the while loop walks the parent chain; its '
+              'proof needs sequence-concatenation associativity and a finite-tree rank, which the engine lacks')
+
+PLAIN = 'forall(0, len(self.instantiations), lambda j: wf_tn_plain(self.instantiations[j]))'
+contract('InstantiatedGlobalFunction.to_cpp', returns='str', requires=[PLAIN], result_is='igf_cpp(self)')
+contract('GlobalFunction.to_cpp', returns='str', result_is='self.name')
